@@ -48,6 +48,10 @@ namespace xv
     XV_REF(ref_fsub, r.v = opaque(x.a) - opaque(x.b);)
     XV_REF(ref_fmul, r.v = opaque(x.a) * opaque(x.b);)
     XV_REF(ref_fdiv, r.v = opaque(x.a) / opaque(x.b);)
+    XV_REF(ref_fincr, r.v = opaque(x.a) + (T)1;)
+    XV_REF(ref_fdecr, r.v = opaque(x.a) - (T)1;)
+    XV_REF(ref_fincr_if, r.v = x.m ? opaque(x.a) + (T)1 : x.a;)
+    XV_REF(ref_fdecr_if, r.v = x.m ? opaque(x.a) - (T)1 : x.a;)
     XV_REF(ref_fsqrt, r.v = std::sqrt(opaque(x.a));)
     XV_REF(ref_fneg, r.v = fpb<T>::val(fpb<T>::bits(x.a) ^ fpb<T>::SIGN); r.exact = true;)
     XV_REF(ref_fabs, r.v = fpb<T>::val(fpb<T>::bits(x.a) & ~fpb<T>::SIGN); r.exact = true;)
@@ -120,6 +124,10 @@ namespace xv
         def_fp<ref_fmul>("mul", "bin");
         def_fp<ref_fdiv>("div", "bin");
         def_fp<ref_fsqrt>("sqrt", "un");
+        def_fp<ref_fincr>("incr", "un");
+        def_fp<ref_fdecr>("decr", "un");
+        def_fp<ref_fincr_if>("incr_if", "un_mask");
+        def_fp<ref_fdecr_if>("decr_if", "un_mask");
         def_fp<ref_fneg>("neg", "un");
         def_fp<ref_fabs>("abs", "un");
         def_fp<ref_copysign>("copysign", "bin");
